@@ -431,3 +431,36 @@ def replay_waits(trace, deps_by_name=None):
     rs, ev = wait_events(trace, deps_by_name)
     ans = run_lines(MODEL, ["waits-replay %s %s" % (rs, ";".join(ev) if ev else "-")])[0]
     return ans, ev, rs
+
+
+def row_events(trace):
+    """pid -> the transaction, load and save events of that process (for the RowCache acceptor)."""
+    per = {}
+    for pid, ts, name, a in trace:
+        if name in ("txn.begin", "init.txn"):
+            per.setdefault(pid, []).append("b,%d" % pid)
+        elif name in ("txn.commit", "txn.rollback", "init.commit"):
+            per.setdefault(pid, []).append("c,%d" % pid)
+        elif name == "row.load" and len(a) >= 2:
+            per.setdefault(pid, []).append("l,%d,%s,%s" % (pid, a[0], a[1]))
+        elif name == "row.save" and len(a) >= 2:
+            per.setdefault(pid, []).append("s,%d,%s,%s" % (pid, a[0], a[1]))
+    return per
+
+
+def replay_rows(trace):
+    """Replay every process's load/save events through the Lean acceptor RowCache.step: a copy of a Files row is saved
+    only inside the transaction in which it was loaded.  Returns (number of saves checked, [(pid, answer, events)])."""
+    per = row_events(trace)
+    per = {p: ev for p, ev in per.items() if any(e.startswith("s,") for e in ev)}
+    if not per:
+        return 0, []
+    ans = run_lines(MODEL, ["rowcache-replay " + ";".join(ev) for ev in per.values()])
+    bad = []
+    saves = 0
+    for (pid, ev), a in zip(per.items(), ans):
+        if a.startswith("ok"):
+            saves += int(a.split("=")[1])
+        else:
+            bad.append((pid, a, ev))
+    return saves, bad
